@@ -24,8 +24,9 @@ def check(ctx):
     ctx.run(E.rule_initial_ready_set, "C01.A4", r)
     ctx.run(E.rule_queue_effects, "C01.A5", r)
     ctx.run(E.rule_queue_internals, "C01.A5", r)
-    ctx.run(rule_pruning_preserves_paths, "C01.A6")
     from . import runrules as R
+    from .prunerules import rule_pruning_evaluated as _rpe
+    ctx.run(lambda c_: _rpe(c_, "C01.A6", R.discover(c_.model, r)))
     from .extra import rule_plan_records_dependencies
     rr = R.discover(ctx.model, r)
     ctx.run(E.rule_callbacks_only_via_engine, "C01.A7", r, [rr.runcb, rr.stalecb])
